@@ -1063,6 +1063,17 @@ func TestGen(t *testing.T) {
 			id += len(groups)
 			return
 		}
+		// C12_sort_vhost_routes_identity against the real SortVHostRoutes
+		sorted := istio_route.SortVHostRoutes(routes)
+		same := len(sorted) == len(routes)
+		for i := range routes {
+			same = same && sorted[i] == routes[i]
+		}
+		if !same {
+			c.Violate(vlib.Violation{ID: id, Kind: "oracle", Detail: "SortVHostRoutes reorders the routes of a single VirtualService",
+				Case: map[string]any{"ctx": cx, "rules": rules}})
+		}
+		c.Hyp("SortVHostRoutes is the identity on one VirtualService's routes", 1)
 		obs := vlib.ListOf(routes, routeTerm)
 		rulesT := vlib.ListOf(rules, ruleTerm)
 		cT := ctxTerm(cx)
